@@ -43,6 +43,7 @@ def benign(id, *edits):
 mut("c05-lt-le", "C05", "C05.R1", (TL, "self.current_time < expires.unwrap()", "self.current_time <= expires.unwrap()"))
 mut("c05-operands-swapped", "C05", "C05.R1", (TL, "self.current_time < expires.unwrap()", "expires.unwrap() < self.current_time"))
 mut("c05-iserr-isok", "C05", "C05.R1", (TL, "if expires.is_err() {", "if expires.is_ok() {"))
+mut("c05-unparsable-offset-falls-back-to-utc", "C05", "C05.R1", (TL, 'let expires = DateTime::parse_from_str(&expires_str, "%Y-%m-%d %H:%M:%S %z");', 'let expires = DateTime::parse_from_str(&expires_str, "%Y-%m-%d %H:%M:%S %z").or_else(|_| DateTime::parse_from_str(&format!("{} +00:00", expires_attr.unwrap().value.unwrap()), "%Y-%m-%d %H:%M:%S %z"));'))
 mut("c05-hardcoded-offset", "C05", "C05.R2", (TL, "expires_str.push_str(self.time_offset.as_str());", 'expires_str.push_str("+00:00");'))
 mut("c05-format-no-seconds", "C05", "C05.R2", (TL, 'parse_from_str(&expires_str, "%Y-%m-%d %H:%M:%S %z")', 'parse_from_str(&expires_str, "%Y-%m-%d %H:%M %z")'))
 mut("c05-naive-local", "C05", "C05.R",
